@@ -200,10 +200,13 @@ PROPS = {
                     "only source text or persistent bytes; clone_into yields a value whose owned parts are all fresh allocations in the target arena "
                     "and which holds no view of an owned string; Runtime::relocate_return_value resets the frame exactly once on every path and returns a "
                     "value no part of which is pre-reset frame memory (strings rebuilt after the reset, arrays/hosts promoted first); binding an "
-                    "argument to a parameter never leaves a borrowed view of a pool slot and promotes arrays/hosts while a frame is active."),
+                    "argument to a parameter never leaves a borrowed view of a pool slot and promotes arrays/hosts while a frame is active.  RESET POINTS "
+                    "(unit block_exec): a jasi resets the frame only at the end of a round that completed normally or with `next`, only when a frame "
+                    "arena is active and only to a mark the loop took itself (nothing allocated before the loop is reclaimed; comot/return leave "
+                    "without a reset); a call resets it exactly once, through relocate_return_value, and closes its parameter scope on every path."),
         "not_covered": ("that EVERY store site of the 1900-line evaluator goes through one of these primitives (six are decided, see store_sites); "
                         "byte-level content of arrays and host values (the region model abstracts pointers to regions; byte contents are the Kani "
-                        "harnesses, strings only); the staging reclaim inside relocate_return_value (persistent mark/reset); loop reset points. The defects found there (returning a host value; growing a "
+                        "harnesses, strings only); the staging reclaim inside relocate_return_value (persistent mark/reset). The defects found there (returning a host value; growing a "
                         "parameter array inside a loop in the callee) were repaired (265c738, 0c46f42) but are not decided by an obligation."),
         "trusted_base": [KANI_TRUST, OS_TRUST, "PoolSet::{alloc_str, contains, dealloc} used through contract stubs whose clauses are proved for the real PoolSet under C12"],
     },
